@@ -70,7 +70,12 @@ def main():
 
 
 HOOK_COMMITS = ["33b7190 verif: add the NANO_VERIF hook header (no-op unless the guard is defined)",
-                "d179c32 verif: thread-pool event and schedule points (guarded by NANO_VERIF, add-only)"]
+                "d179c32 verif: thread-pool event and schedule points (guarded by NANO_VERIF, add-only)",
+                "4fadb44 verif: value events, RNG seed and thread-count overrides in the hook header (guarded)",
+                "d95bbb0 verif: solver_t::done entry/exit events (guarded by NANO_VERIF, add-only)",
+                "02c0abb verif: augmented-lagrangian outer-iteration event (guarded by NANO_VERIF, add-only)",
+                "be21e41 verif: optional deterministic seed for make_rng() (guarded by NANO_VERIF, add-only)",
+                "d73ded6 verif: optional override of pool_t::max_size() (guarded by NANO_VERIF, add-only)"]
 
 if __name__ == "__main__":
     main()
